@@ -414,3 +414,27 @@ Example C13_other_callbacks_nonvacuous :
        [DictList.JDict [(DictList.k_data, DictList.JStr [97%Z])]; DictList.JDict [(DictList.k_data, DictList.JInt 5)]] = inr DictList.E_CRASH
   /\ Traverse.tree_visit c13_cb [T 1 (c13_inf []) [T 2 (c13_inf []) []; T 3 (c13_inf []) []]] Traverse.PRE = ([1; 2], Traverse.VRaise 8).
 Proof. vm_compute. repeat split. Qed.
+
+(* ---- ECrash of a sort is always a raising key: with a key for every node the deep sort does not fail
+   (the fuel of the model's recursion is never the reason) ---- *)
+Theorem C13_sort_crash_is_a_raising_key : forall w ti p k rev deep,
+  fst (op_sort w ti p k rev deep) = Err ECrash -> ~ total_keys k.
+Proof. exact sort_crash_is_a_raising_key. Qed.
+Print Assumptions C13_sort_crash_is_a_raising_key.
+
+(* ---- the function the correspondence evaluates is [step_chk] / [run_chk] (CaseMut.v: [step] guarded by the
+   liveness of the references, else (Err EModel, w)): the refusal theorem for exactly that function ---- *)
+From NT Require CaseMut CaseWF.
+Theorem C13_refusal_chk : forall w o e,
+  WFw w -> fst (CaseMut.step_chk w o) = Err e -> library_error e = true ->
+  sx_world (snd (CaseMut.step_chk w o)) = sx_world w.
+Proof.
+  intros w o e H. unfold CaseMut.step_chk. destruct (CaseMut.op_live w o); [apply C13_refusal; exact H|reflexivity].
+Qed.
+Print Assumptions C13_refusal_chk.
+
+Theorem C13_refusal_chk_reachable : forall ops o e,
+  fst (CaseMut.step_chk (CaseMut.run_chk ops empty_world) o) = Err e -> library_error e = true ->
+  sx_world (snd (CaseMut.step_chk (CaseMut.run_chk ops empty_world) o)) = sx_world (CaseMut.run_chk ops empty_world).
+Proof. intros ops o e. apply C13_refusal_chk. apply CaseWF.WFw_run_chk, WFw_empty. Qed.
+Print Assumptions C13_refusal_chk_reachable.
